@@ -101,6 +101,38 @@ func runC17(env *Env) {
 			}
 		}
 	}
+	// the same unknown element (id, enterprise number) announced with different lengths by two
+	// templates of one collector (other id, other domain, or a redefinition): each template's own
+	// length must be used
+	nsame := 60
+	if env.Thorough() {
+		nsame = 1500
+	}
+	for it := 0; it < nsame; it++ {
+		u1 := unknownOf(it % 4)
+		u2 := u1
+		for u2.Len == u1.Len {
+			u2.Len = []uint16{1, 2, 3, 4, 8, 9, 16, entities.VariableLength}[r.Intn(8)]
+		}
+		k1, k2 := kp[r.Intn(len(kp))], kp[r.Intn(len(kp))]
+		fs1 := []fieldSpec{k1, u1, k2}
+		fs2 := []fieldSpec{k2, u2, k1}
+		obs1, tid1 := uint32(r.Intn(2)), uint16(256+r.Intn(2))
+		obs2, tid2 := obs1, tid1
+		switch it % 3 {
+		case 0:
+			tid2 = tid1 + 7
+		case 1:
+			obs2 = obs1 + 5
+		}
+		d1 := pktArg(msgBytes(10, obs1, 1, tid1, dataBody(r, fs1, 1+r.Intn(2), 0)))
+		d2 := pktArg(msgBytes(10, obs2, 2, tid2, dataBody(r, fs2, 1+r.Intn(2), 0)))
+		if it%3 == 2 { // redefinition of the same key: only the second layout is valid afterwards
+			emit("unknown/same-id-other-length/redefine", pktArg(templatePkt(obs1, tid1, fs1)), d1, pktArg(templatePkt(obs2, tid2, fs2)), d2)
+		} else {
+			emit("unknown/same-id-other-length", pktArg(templatePkt(obs1, tid1, fs1)), pktArg(templatePkt(obs2, tid2, fs2)), d2, d1)
+		}
+	}
 	// control: templates without unknown elements behave alike in the three modes
 	nc := 150
 	if env.Thorough() {
